@@ -3,7 +3,7 @@ NOTES = ('Contract-based deductive verification of the real code: functions are 
          'side-car contracts are woven on, Verus discharges every obligation. exit 2 = undecided (never an alarm). See DESIGN.md.')
 ENGINES = [
     {'name': 'E1 verus-extract', 'path': '/verif/check, /verif/lib/{rsitems,weave}.py, /verif/units/*.vu, /verif/prelude/*.rs',
-     'serves_properties': ['C05', 'C06', 'C08', 'C15'], 'kind_free_text': 'mechanical extraction of /repo Rust items into single-file Verus units with side-car contracts; Z3 back end'},
+     'serves_properties': ['C01', 'C02', 'C04', 'C05', 'C06', 'C08', 'C13', 'C15', 'C19'], 'kind_free_text': 'mechanical extraction of /repo Rust items into single-file Verus units with side-car contracts; Z3 back end'},
     {'name': 'E3 kani', 'path': '/verif/kani/*', 'serves_properties': [], 'kind_free_text': 'Kani/CBMC harness crates with path deps on /repo crates; complete for finite domains, otherwise labelled bounded'},
 ]
 PENDING = 'not yet claimed: machinery for this property is still being built (see DESIGN.md §10 build order)'
@@ -41,5 +41,40 @@ META = {
         'design_ref': '§7 C06',
         'level_text': 'Deductive proof for all programs and inputs: a successful run of a join/split/loop block is derivable with the documented rules only (split takes exactly the selected branch, loop iterates exactly while the popped value is 1); a non-binary condition at a split, at loop entry or after an iteration is an execution error; executors are properly nested and terminate.',
         'level_note': 'Trusted: decoder method contracts (assumed), hub rules are the semantics definition. AST->MAST lowering (repeat.n unrolling, exec inlining) and the parser are outside Verus reach: not decided.',
+    },
+    'C13': {
+        'engine': 'E1 verus-extract',
+        'technique': 'Verus loop invariants on the real execute_op_batch / execute_span_block against the documented row stream (batch_stream), using batch_ok proved for batch_ops',
+        'design_ref': '§7 C13',
+        'level_text': 'Deductive proof for all programs: the operations the decoder records for a span are exactly SPAN, the batches\' operations in order with a NOOP only after a group-ending immediate op and one per missing group up to the next power of two, RESPAN between batches, END; control blocks record JOIN/SPLIT/LOOP/REPEAT/END around their children\'s streams for the decisions taken; block starts and ends are properly nested.',
+        'level_note': 'Trusted: decoder method contracts (one row per call with the named opcode) are assumed, not yet proved against decoder/trace.rs; call/syscall/dyn executors assumed; final-row program hash not decided.',
+    },
+    'C04': {
+        'engine': 'E1 verus-extract',
+        'technique': 'Verus postconditions pinning every stack constraint function to flag * documented polynomial (whole result slice, wiring of all groups), plus hub lemmas (pure field arithmetic, P prime) that the documented constraints force the operation result',
+        'design_ref': '§7 C04',
+        'level_text': 'Deductive proof for all frames: each enforce_* function of field/u32/stack-manipulation/system/io/overflow/general constraints writes exactly the documented polynomials into its own cells; the 93 unique + 17 general constraints are wired on disjoint slices; soundness lemmas for ADD/MUL/INCR/NEG/NOT/AND/EQ/EQZ/binary check show a wrong next value makes a constraint non-zero.',
+        'level_note': 'Trusted: OpFlags accessor values (OpFlags::new not yet under contract), P prime, winterfell frame. Not decided: chiplet constraints, range checker, cross-row lookups. Polynomials are pinned syntactically: an algebraically equivalent refactoring needs the contract updated.',
+    },
+    'C19': {
+        'engine': 'E1 verus-extract',
+        'technique': 'Verus totality proofs (no precondition on the bytes) and invariant-establishing postconditions on the real decoders of core/air types, against assumed ByteReader/ByteWriter contracts',
+        'design_ref': '§7 C19/C10',
+        'level_text': 'Deductive proof for all byte strings: StackOutputs/StackInputs/Kernel decoders and ExecutionProof::from_bytes/HashFunction::try_from return Ok or Err without panicking; accepted StackOutputs/Kernel satisfy the constructors\' invariants (canonical elements, >= 16 items, consistent overflow addresses, <= 255 distinct kernel procedures); StackOutputs::new rejects exactly non-canonical / inconsistent data.',
+        'level_note': 'Trusted: winter-utils reader/writer contracts, Kernel::new closure-based body (contract assumed). Not decided: AST / library decoders of the assembly crate, iterator-closure constructors (try_from_values, with_stack_values).',
+    },
+    'C02': {
+        'engine': 'E1 verus-extract',
+        'technique': 'Verus postconditions on verify() (statement, hasher tag, accept set), on the stack boundary-assertion builders (whole assertion list) and on the proof/statement decoders',
+        'design_ref': '§7 C02',
+        'level_text': 'Deductive proof of the binding glue: verify() hands the STARK verifier exactly the caller\'s program info, inputs and outputs with the hasher of the proof\'s tag and the documented accept set, and returns Err whenever the STARK verifier does; every top-16 input/output and the initial depth/overflow address is bound by exactly one boundary assertion; malformed proof headers and malformed statements are rejected without panic.',
+        'level_note': 'Trusted: winterfell (cryptographic soundness, proof body decoding). Not decided: aux boundary products, to_elements ordering, range-checker assertions.',
+    },
+    'C01': {
+        'engine': 'E1 verus-extract',
+        'technique': 'Verus postconditions on the proving-option presets (membership in the verifier accept sets) and on the prover\'s get_pub_inputs',
+        'design_ref': '§7 C01',
+        'level_text': 'Glue obligations only: each standard preset (96/128-bit, regular/recursive) carries a hash function and options that verify() accepts for that hash function; the statement the prover commits to is (trace program info, given inputs, given outputs), the same shape verify() rebuilds.',
+        'level_note': 'Protocol completeness (winterfell prover succeeds, verifier accepts, security level) is assumed, not proved; prove() body out of reach; honest-trace satisfaction is property C03.',
     },
 }
